@@ -3,13 +3,15 @@
 // unbounded recursion becomes a clean, shrinkable failure.
 #pragma once
 #include "engine.hpp"
+#include <unordered_set>
 
 namespace eng {
 
 // true if no cycle is reachable from `root` over the edges a printer may follow
 // (a conservative superset: every node-valued accessor except the documented
 // back links enclosing/owner/master/decl_set/home/lexical region/from/iteration...)
-bool printable_acyclic(const Entity& root, std::size_t* visited = nullptr, std::string* why = nullptr);
+// `known_good`: nodes already shown to reach no cycle (valid as long as the graph is not modified)
+bool printable_acyclic(const Entity& root, std::size_t* visited = nullptr, std::string* why = nullptr, std::unordered_set<const void*>* known_good = nullptr);
 
 PrintResult guarded_print(const ipr::Lexicon& lex, PrintWhat what, const void* target, bool locations);
 
